@@ -93,11 +93,12 @@ def gen_cases(ctx, ntypes):
                         count = rng.choice([0, 1, 1, 2, 3, 5])
                         adv = rng.choice(ADVS)
                         pa = ppn if how == "explicit" else 0
-                        cases.append((P, rng.randrange(1 << 30), adv, pa, ppn, 0, flavour, d, count, rng.randrange(1 << 16), 1, 0))
+                        # sync: the callers' own barrier before each write round, or none (the protocol alone keeps the rounds apart)
+                        cases.append((P, rng.randrange(1 << 30), adv, pa, ppn, 0, flavour, d, count, rng.randrange(1 << 16), rng.randrange(2), 0))
                 # the same grid inherited by an MPI_Comm_dup'ed communicator (attribute copy callback): everything runs on the duplicate
                 how = rng.choice(["explicit", "split_type"])
                 cases.append((P, rng.randrange(1 << 30), rng.choice(ADVS), ppn if how == "explicit" else 0, ppn, 0, flavour, rng.randrange(8),
-                              rng.choice([1, 1, 2, 3]), rng.randrange(1 << 16), 1, 1))
+                              rng.choice([1, 1, 2, 3]), rng.randrange(1 << 16), rng.randrange(2), 1))
     # not attached at all: every flavour must fall back to the basic behaviour
     for _ in range(6 if ctx.quick else 30):
         P = rng.choice([1, 2, 3, 5, 8])
@@ -118,7 +119,8 @@ def gen_cases(ctx, ntypes):
             cases.append((P, rng.randrange(1 << 30), rng.choice(ADVS), rng.choice([0, ppn]), ppn, 0, flavour, rng.randrange(8), rng.choice([1, 2]),
                           rng.randrange(1 << 16), 1, 1))
     # write rounds that follow each other directly (no barrier between a reader's last read and the next
-    # sc_shmem_write_start): probe of the recorded finding for the window flavours; must hold for the others
+    # sc_shmem_write_start): the protocol itself must keep the rounds apart (theorem C14_protocol_rounds_do_not_overlap;
+    # finding F-C14b, repaired: the barrier inside sc_shmem_write_start_window)
     for _ in range(40 if ctx.quick else 300):
         P = rng.choice([2, 3, 4, 6, 8])
         ppn = rng.choice([d for d in range(1, P + 1) if P % d == 0])
@@ -192,6 +194,11 @@ def judge(ctx, c, r, bad, ntypes):
     if leaks:
         viol("leak", "objects left after detach and free: " + "; ".join(leaks)[:400])
     warns = [l for l in r.report.split("\n") if l.startswith("[WARNING]")]
+    nocheck = [l for l in warns if "MPI_MODE_NOCHECK" in l]
+    if nocheck:
+        # theorem C14_protocol_nocheck_assertions_hold: every lock of the protocol is taken while no conflicting lock is held
+        rep["warnings"] = nocheck[:5]
+        viol("nocheck", "a window lock was taken with MPI_MODE_NOCHECK while a conflicting lock was held (%d times), e.g. %s" % (len(nocheck), nocheck[0][:300]))
     if r.mem not in (0, None):
         viol("memory", "sc_memory_status changed by %s" % r.mem)
     grid = expected_grid(c)
@@ -235,7 +242,7 @@ def judge(ctx, c, r, bad, ntypes):
             rep["rank"], rep["got"], rep["expected"] = q, cp, ag
             if shared and not sync and hb(o["cp"]) == pattern(dseed, 0, node, P * count * ts):
                 viol("b2b-visible", "rank %d returned from sc_shmem_memcpy and reads the data of the NEXT write round: its node's writer "
-                     "has already passed sc_shmem_write_start and overwritten the array (no synchronisation in write_start)" % q)
+                     "has already passed sc_shmem_write_start and overwritten the array (write_start does not wait for the readers of the node)" % q)
             else:
                 viol("memcpy", "rank %d: copy differs from its source array" % q)
         # write protocol
@@ -250,7 +257,7 @@ def judge(ctx, c, r, bad, ntypes):
                 rep["rank"], rep["round"] = q, rnd
                 if shared and not sync and rnd == 0 and view == pattern(dseed, 1, node, P * count * ts):
                     viol("b2b-visible", "rank %d returned from sc_shmem_write_end of round 0 and reads the data of round 1: its node's writer "
-                         "has already passed the next sc_shmem_write_start and overwritten the array (no synchronisation in write_start)" % q)
+                         "has already passed the next sc_shmem_write_start and overwritten the array (write_start does not wait for the readers of the node)" % q)
                 else:
                     viol("visible", "rank %d does not see the data written by its node's writer after sc_shmem_write_end (round %d)" % (q, rnd))
     return dict(warnings=len(warns), outs=outs, grid=grid)
@@ -454,16 +461,16 @@ def run(ctx):
     ctx.cov["rule"] = ("runs of the real sc_shmem_* / node communicator code on the simulated MPI: P in %s, every node size dividing P, explicit "
                        "processes_per_node and MPI_Comm_split_type (contiguous nodes), all 4 flavours, 8 integer datatypes, counts 0..5, all 8 "
                        "scheduler adversaries; plus: no communicators attached, unequal node sizes (must not attach), and the round-robin node "
-                       "partition and write rounds back to back (no barrier between the last read and the next write_start) as probes of the "
-                       "recorded findings; after detach: get_node_comms must return NULL/NULL, no communicator/window may be left; "
+                       "partition as probe of the recorded finding F-C14a; write rounds back to back (no barrier of the callers between the last "
+                       "read and the next write_start; every MPI_MODE_NOCHECK lock must find no conflicting lock); after detach: get_node_comms must return NULL/NULL, no communicator/window may be left; "
                        "distinct = distinct parameter tuples; non-trivial = P > 1" % (
                            "{1,2,3,4,6,8,9,12}" if ctx.quick else "{1..10,12,15,16,18,24}"))
     ctx.notes["distribution"] = dist
-    ctx.notes["nocheck_lock_warnings"] = ("simmpi recorded %d [WARNING] items: sc_shmem_write_start_window takes MPI_Win_lock (EXCLUSIVE, MPI_MODE_NOCHECK) "
-                                          "while other ranks of the node may still hold their SHARED lock; see docs/C14.md" % dist["nocheck_warnings"])
+    ctx.notes["nocheck_lock_warnings"] = ("simmpi recorded %d [WARNING] items (MPI_MODE_NOCHECK asserted while a conflicting lock is held: judged, kind `nocheck`; "
+                                          "0 expected since the barrier in sc_shmem_write_start_window)" % dist["nocheck_warnings"])
     for c in cases[:: max(1, len(cases) // 4)][:4]:
         ctx.sample(dict(P=c[0], seed=c[1], adversary=c[2], ppn_attach=c[3], ppn_sim=c[4], roundrobin=c[5], flavour=FNAME[c[6]], dtype=TNAME[c[7]], count=c[8]))
-    ctx.cov["trusted_base"] = ["T1: colours / keys of the MPI_Comm_split calls, the write_start / write_end decisions, the slot arithmetic and wrapped sums of sc_scan_on_array and the byte / item counts of the prefix and allgather functions are proved EQUAL to Gen/ShmemC14.v, regenerated from the working tree on every run (tools/c2g + tools/c2g/slicelib.py + clang-14 JSON AST trusted; parsed with tools/simmpi/mpi.h in the configuration the check builds)",
+    ctx.cov["trusted_base"] = ["T1: colours / keys of the MPI_Comm_split calls, the write_start / write_end decisions and the ORDER of their unlock / barrier / lock calls, the slot arithmetic and wrapped sums of sc_scan_on_array and the byte / item counts of the prefix and allgather functions are proved EQUAL to Gen/ShmemC14.v, regenerated from the working tree on every run (tools/c2g + tools/c2g/slicelib.py + clang-14 JSON AST trusted; parsed with tools/simmpi/mpi.h in the configuration the check builds)",
                                "tools/simmpi (simulated MPI: collectives, Comm_split/Comm_split_type, shared windows in one address space, "
                                "window locks with MPI_MODE_NOCHECK never block) and its trace",
                                "real shared-memory visibility and ordering between processes is outside the model: the simulator runs all ranks in one thread",
